@@ -236,4 +236,6 @@ def run(model, R):
     from .common import flag_clobber
     flag_clobber(R, model.func('lattices.Data._fromlist'), ['unordered'])
     R.guard('ORDER', None, '__setstate__', setstate_passes_state, model, R)
+    from .common import no_unpickle_shortcut
+    R.guard('ORDER', None, '_init call sites', no_unpickle_shortcut, model, R, 'ORDER')
     return __doc__.strip()
